@@ -288,6 +288,12 @@ def exec (conjv : K → K) (half : K) (st : St K) (cmd : List String) : Option (
     match C4.computeElem c4 id with
     | some c4' => some ({ st with c4 := c4' }, ["o ok"])
     | none => some ({ st with c4 := c4 }, ["o exc statusMismatch"])
+  | ["tpc", "ondemand", a, b, c, d, n1, n2, n3] =>
+    -- one look-up; the element it returns is prepared, computed and evaluated
+    let (c4, id, _) := C4.lookup st.c4 (a.toNat!, b.toNat!, c.toNat!, d.toNat!)
+    let c4 := C4.markPrepared c4 id
+    let c4 := (C4.computeElem c4 id).getD c4
+    some ({ st with c4 := c4 }, [s!"o tpcget {a} {b} {c} {d} {n1} {n2} {n3} C"])
   | ["tpc", "get", a, b, c, d, n1, n2, n3] =>
     let (c4, id, _) := C4.lookup st.c4 (a.toNat!, b.toNat!, c.toNat!, d.toNat!)
     -- status of the element: C = computed, P = prepared only, N = neither (the replay loop turns this into the
@@ -489,8 +495,8 @@ def replay (conjv : K → K) (half : K) (lines : List String) : IO Unit := do
       -- `tpc get` lines carry numeric values after the verdict: compare the predicted prefix only
       -- an element that was never prepared silently evaluates to 0 (`Vanishing` is still true); a prepared but
       -- uncomputed one throws unless it has no parts at all
-      let status := if cmd.take 2 == ["tpc", "get"] then ((expected.headD "").splitOn " ").getLastD "" else ""
-      let expected := if cmd.take 2 == ["tpc", "get"] then
+      let status := if (cmd.take 2 == ["tpc", "get"] || cmd.take 2 == ["tpc", "ondemand"]) then ((expected.headD "").splitOn " ").getLastD "" else ""
+      let expected := if (cmd.take 2 == ["tpc", "get"] || cmd.take 2 == ["tpc", "ondemand"]) then
           match obs.map Driver.toks with
           | [t] =>
             let vanishing := t.getLastD "0" == "1"
@@ -498,12 +504,12 @@ def replay (conjv : K → K) (half : K) (lines : List String) : IO Unit := do
             [(" ".intercalate ((Driver.toks (expected.headD "")).dropLast)) ++ " " ++ verdict]
           | _ => expected
         else expected
-      let obs' := if cmd.take 2 == ["tpc", "get"] then obs.map fun l =>
+      let obs' := if (cmd.take 2 == ["tpc", "get"] || cmd.take 2 == ["tpc", "ondemand"]) then obs.map fun l =>
           let t := Driver.toks l
           " ".intercalate (t.take (if t.getD 9 "" == "exc" then 11 else 10)) else obs
       -- property oracle C13: the container's value equals that of a directly constructed object; after a bulk
       -- computation everything listed is evaluable
-      if cmd.take 2 == ["tpc", "get"] then
+      if (cmd.take 2 == ["tpc", "get"] || cmd.take 2 == ["tpc", "ondemand"]) then
         match obs.map Driver.toks with
         | [t] =>
           if t.getD 9 "" == "ok" && status == "C" then
@@ -529,7 +535,7 @@ def replay (conjv : K → K) (half : K) (lines : List String) : IO Unit := do
         tally := tally.pfail
       justPrepared := cmd.take 2 == ["tpc", "prepareall"] && obs == ["o ok"]
       if cmd.take 2 == ["tpc", "computeall"] then lastBulkOk := obs == ["o ok"]
-      else if cmd.take 2 != ["tpc", "evalall"] && cmd.take 2 != ["tpc", "list"] && cmd.take 2 != ["tpc", "get"] then lastBulkOk := false
+      else if cmd.take 2 != ["tpc", "evalall"] && cmd.take 2 != ["tpc", "list"] && cmd.take 2 != ["tpc", "get"] && cmd.take 2 != ["tpc", "ondemand"] then lastBulkOk := false
       let obs := obs'
       if obs == expected then
         tally := tally.ok
